@@ -315,6 +315,9 @@ func runC02b(rc *RunCtx, sc c02Sched) {
 		}
 	}
 	f := gen.NewFile(randBytes(rc.Rng, int64(1+rc.Intn(5000))), 1024)
+	if rc.Chance(0.3) {
+		s.ReqProofInterval = []int64{1, W - 1, W + 1, 3 * W, 1 << 40}[rc.Intn(5)] // the file's proof window stays the network's
+	}
 	wf, r := s.PostFile(0, f, 2, 0, -1)
 	if !r.OK() {
 		rc.Abort("post: " + r.Log)
